@@ -244,7 +244,32 @@ def _job_threads(job):
     return results
 
 
-_JOBS = {'configs': _job_configs, 'histories': _job_histories, 'threads': _job_threads}
+def _job_forked(job):
+    """every configuration in its own forked copy of this process, which has imported the library and translated nothing"""
+    import excel2pycl  # noqa  (the only thing the copies inherit)
+    out = []
+    for c in job['configs']:
+        r, w = os.pipe()
+        pid = os.fork()
+        if pid == 0:
+            code = 0
+            try:
+                os.close(r)
+                data = json.dumps(_summ(_fresh(*c), job.get('text', False))).encode()
+                with os.fdopen(w, 'wb') as f:
+                    f.write(data)
+            except BaseException:  # noqa
+                code = 1
+            os._exit(code)
+        os.close(w)
+        with os.fdopen(r, 'rb') as f:
+            data = f.read()
+        os.waitpid(pid, 0)
+        out.append(json.loads(data) if data else {'k': 'crash', 'msg': 'forked translator died'})
+    return out
+
+
+_JOBS = {'configs': _job_configs, 'histories': _job_histories, 'threads': _job_threads, 'forked': _job_forked}
 
 
 def _child_main():
@@ -283,7 +308,8 @@ def _ckey(c):
 
 
 class Table:
-    """T: (workbook name, entry id, safety) -> outcome of a fresh parser in a fresh process (hash seed 0); computed on demand"""
+    """T: (workbook name, entry id, safety) -> outcome of a fresh parser in a process that has imported the library and translated
+    nothing (a forked copy of such a process per setting, hash seed 0); computed on demand"""
 
     def __init__(self, paths):
         self.paths, self.t, self.crashes = paths, {}, []
@@ -295,13 +321,15 @@ class Table:
             if k not in self.t and k not in seen:
                 seen.add(k)
                 todo.append(list(c))
-        jobs = [{'job': 'configs', 'text': True, 'configs': [[self.paths[c[0]] if c[0] is not None else None, c[1], c[2]]]} for c in todo]
-        for c, r in zip(todo, _spawn_many(jobs)):
-            if isinstance(r, dict):
-                self.crashes.append((c, r['crash']))
-                self.t[_ckey(c)] = {'k': 'crash', 'msg': r['crash']}
-            else:
-                self.t[_ckey(c)] = r[0]
+        if not todo:
+            return
+        nproc = min(16, len(todo))
+        parts = [todo[i::nproc] for i in range(nproc)]
+        jobs = [{'job': 'forked', 'text': True, 'configs': [[self.paths[c[0]] if c[0] is not None else None, c[1], c[2]] for c in part]}
+                for part in parts]
+        for part, r in zip(parts, _spawn_many(jobs)):
+            for j, c in enumerate(part):
+                self.t[_ckey(c)] = {'k': 'crash', 'msg': r['crash']} if isinstance(r, dict) else r[j]
 
     def get(self, c):
         if _ckey(c) not in self.t:
@@ -338,7 +366,7 @@ def _judge(ops, obs, table):
     by_index = {o[0]: o for o in obs}
     prev_obs = None            # (index, outcome, config) of the previous observation
     since = []                 # setter kinds since the previous observation
-    records = []
+    records, earlier = [], []
     for i, op in enumerate(ops):
         k = op[0]
         if k == 'P':
@@ -367,32 +395,27 @@ def _judge(ops, obs, table):
         if repeat and not _same(got, prev_obs[1]) and not (got['k'] == 'raise' and prev_obs[1]['k'] == 'raise' and got['cls'] == prev_obs[1]['cls']):
             ok = False
         if not ok:
-            if got['k'] == 'text' and exp['k'] == 'raise':
-                sym = 'text_instead_of_raise'
-            elif got['k'] == 'raise' and exp['k'] == 'text':
-                sym = 'raise_instead_of_text'
+            stale = got['k'] == 'text' and any(e[1]['k'] == 'text' and e[1]['sha'] == got['sha'] and e[2] != tuple(state) for e in earlier)
+            if got['k'] == 'text':
+                sym = 'stale_text' if stale else 'missing_raise' if exp['k'] == 'raise' else 'wrong_text'
             elif got['k'] == 'raise':
-                sym = 'other_raise' if got['cls'] != exp['cls'] else 'raise_message'
+                sym = 'unexpected_raise' if exp['k'] == 'text' else 'wrong_raise'
             else:
-                sym = 'other_text'
-            stale = prev_obs is not None and prev_obs[1]['k'] == 'text' and got['k'] == 'text' and got['sha'] == prev_obs[1]['sha'] \
-                and tuple(state) != prev_obs[2]
-            if stale:
-                sym = 'stale_' + sym
+                sym = 'not_a_text'
             if repeat:
                 key = f"C09.repeat.{'write' if k == 'W' else 'get'}_after_{'raise' if prev_obs[1]['k'] == 'raise' else 'text'}.{sym}"
                 clause = 'repeat'
             else:
                 last = since[-1] if since else 'none'
-                key = f"C09.{'written_file' if k == 'W' else 'settings'}.after_{last}{'.cached' if prev_obs else '.fresh'}.{sym}"
+                key = f"C09.{'written_file' if k == 'W' else 'settings'}.after_{last}.{sym}"
                 clause = 'written' if k == 'W' else 'settings'
+            clause = clause + '/' + sym
             what = (f'history {_fmt(ops[:i + 1])}: {"write" if k == "W" else "get"} #{i} -> {_short(got)}; a fresh parser with '
                     f'path={state[0]}, entry={state[1]}, safety={state[2]} gives {_short(exp)}'
                     + (f'; previous call without a change gave {_short(prev_obs[1])}' if repeat else ''))
             return (clause, key, what, i), records
-        if k == 'W' and got['k'] == 'raise' and got.get('file_touched'):
-            return ('written', 'C09.written_file.touched_although_raised', f'history {_fmt(ops[:i + 1])}: write raised but changed the file', i), records
         prev_obs = (i, got, tuple(state))
+        earlier.append(prev_obs)
         since = []
     return None, records
 
@@ -401,8 +424,9 @@ def _fmt(ops):
     return ' '.join(o[0] + ('(' + ','.join(str(x) for x in o[1:]) + ')' if len(o) > 1 else '') for o in ops)
 
 
-def _run_histories(histories, paths, d, chunk=250, seeds=None):
+def _run_histories(histories, paths, d, chunk=None, seeds=None):
     """-> list of observation lists (same order); each chunk in a fresh process"""
+    chunk = chunk or max(20, min(400, -(-len(histories) // 32)))
     chunks = [histories[i:i + chunk] for i in range(0, len(histories), chunk)]
     jobs = [{'job': 'histories', 'paths': {**paths, 'None': None}, 'histories': c,
              'outs': [os.path.join(d, f'out_{n}_{j}.py') for j in range(2)]} for n, c in enumerate(chunks)]
@@ -440,8 +464,8 @@ def _single(h, paths, d, table):
     return _judge(h, obs[0], table)[0]
 
 
-def _minimise(h, paths, d, table, key, budget=14):
-    """greedy removal of operations keeping the same failure key (each attempt runs in a fresh process)"""
+def _minimise(h, paths, d, table, clause, budget=12):
+    """greedy removal of operations keeping clause and symptom of the failure (each attempt runs in a fresh process)"""
     cur = list(h)
     changed = True
     while changed and budget > 0:
@@ -450,7 +474,7 @@ def _minimise(h, paths, d, table, key, budget=14):
             cand = cur[:i] + cur[i + 1:]
             budget -= 1
             v = _single(cand, paths, d, table)
-            if v is not None and v[1] == key:
+            if v is not None and v[0] == clause:
                 cur = cand[:v[3] + 1]
                 changed = True
                 break
@@ -464,6 +488,7 @@ def _sweep(name, histories, paths, d, table, bound, rule, exhaustive, t0, sample
     table.need({c for h in histories for c in _states_of(h)})
     norm = [_norm_hist(h) for h in histories]
     obs, chunks = _run_histories(norm, paths, d)
+    csize = len(chunks[0]) if chunks else 1
     evals, sigs, raw = {'settings': 0, 'repeat': 0, 'written': 0}, set(), {}
     for n, (h, o) in enumerate(zip(histories, obs)):
         verdict, records = _judge(h, o, table)
@@ -473,17 +498,18 @@ def _sweep(name, histories, paths, d, table, bound, rule, exhaustive, t0, sample
                 sigs.add(r['sig'])
         if verdict is not None:
             clause, key, what, at = verdict
-            if key not in raw or len(h) < len(raw[key][0]):
-                raw[key] = (h, what, at, n)
-    fails = {}
-    for key, (h, what, at, n) in sorted(raw.items())[:25]:
+            if key not in raw or at < raw[key][2]:
+                raw[key] = (h, what, at, n, clause)
+
+    def settle(item):
+        key, (h, what, at, n, clause) = item
         h = h[:at + 1]
         alone = _single(h, paths, d, table)
-        if alone is None or alone[1] != key:
+        if alone is None or alone[0] != clause:
             # only fails after the earlier histories of its chunk: a process-history effect
-            start = (n // 250) * 250
+            start = (n // csize) * csize
             prefix = histories[start:n + 1]
-            for size in (1, 2, 4, 8, 16, 32, 64, 128, 256):
+            for size in (1, 2, 4, 8, 16, 32, 64, 128, 256, 512):
                 sub = prefix[-size - 1:]
                 o2, _ = _run_histories([_norm_hist(x) for x in sub], paths, d, chunk=len(sub))
                 if _judge(sub[-1], o2[-1], table)[0] is not None:
@@ -492,17 +518,24 @@ def _sweep(name, histories, paths, d, table, bound, rule, exhaustive, t0, sample
                 if size >= len(prefix):
                     break
             k2 = 'C09.process_history.' + key.split('.', 1)[1]
-            fails.setdefault(k2, {'key': k2, 'what': f'only after {len(prefix) - 1} earlier histories in the same process: ' + what,
-                                  'replay': {'kind': 'chunk', 'histories': prefix, 'key': key}})
-            continue
-        hm = _minimise(h, paths, d, table, key)
+            return {'key': k2, 'what': f'only after {len(prefix) - 1} earlier histories in the same process: ' + what,
+                    'replay': {'kind': 'chunk', 'histories': prefix, 'key': key}}
+        hm = _minimise(h, paths, d, table, clause)
         v = _single(hm, paths, d, table)
         if v is None:
             hm, v = h, alone
-        fails.setdefault(v[1], {'key': v[1], 'what': v[2], 'replay': {'kind': 'history', 'ops': hm}})
+        return {'key': v[1], 'what': v[2], 'replay': {'kind': 'history', 'ops': hm}}
+
+    fails = {}
+    todo = sorted(raw.items(), key=lambda kv: (kv[1][2], kv[0]))[:16]
+    if todo:
+        with concurrent.futures.ThreadPoolExecutor(8) as ex:
+            for f in ex.map(settle, todo):
+                if f['key'] not in fails or len(json.dumps(f['replay'])) < len(json.dumps(fails[f['key']]['replay'])):
+                    fails[f['key']] = f
     total = sum(evals.values())
     return {'name': name, 'bound': bound, 'rule': rule + f' [evaluations by clause: {evals}]', 'exhaustive': exhaustive,
-            'evaluations': total, 'distinct_nontrivial': len(sigs), 'failures': list(fails.values())[:25],
+            'evaluations': total, 'distinct_nontrivial': len(sigs), 'failures': [fails[k] for k in sorted(fails)][:25],
             'samples': samples or [{'history': _fmt(h), 'observations': [[o[0], o[1], _short(o[2])] for o in ob]}
                                    for h, ob in list(zip(histories, obs))[len(histories) // 2:len(histories) // 2 + 3]],
             'seconds': round(time.time() - t0, 2)}
@@ -521,9 +554,10 @@ ALPHA = [['P', 'base'], ['P', 'twin'], ['P', 'unsafe'], ['P', 'missing'], ['E', 
          ['G'], ['W', 0]]
 
 
-def _exhaustive_histories(maxlen):
+def _exhaustive_histories(lens):
+    """lens[i] = maximal number of calls appended to SETUPS[i]"""
     out = []
-    for setup in SETUPS:
+    for setup, maxlen in zip(SETUPS, lens):
         for n in range(1, maxlen + 1):
             for body in itertools.product(ALPHA, repeat=n - 1):
                 for last in (['G'], ['W', 0]):
@@ -766,19 +800,19 @@ def run(tier='quick', seed=0):
 
         # ---------------- facade histories
         t0 = time.time()
-        L = 5 if thorough else 4
-        hs = _exhaustive_histories(L)
+        lens = [5, 5, 5, 5, 5, 5] if thorough else [4, 3, 3, 3, 3, 3]
+        hs = _exhaustive_histories(lens)
         checks.append(_sweep(
             'C09.monitor.history_exhaustive', hs, paths, d, table,
             f'{len(SETUPS)} set-up prefixes (fresh parser; cached unsafe text with safety off; cached entry translation; cached with '
-            f'entry+safety on; a raise with nothing cached; cached text then a raise on a missing file) x every sequence of 1..{L} calls '
+            f'entry+safety on; a raise with nothing cached; cached text then a raise on a missing file) x every sequence of 1..{lens[0]} (fresh parser) resp. 1..{lens[1]} (other prefixes) calls '
             f'over {_fmt(ALPHA)} that ends in get or write = {len(hs)} histories on one Parser each (entry Cell objects re-used across workbooks)',
             'one evaluation = one get / write compared with a fresh parser in a fresh process configured with the settings in force '
             '(text sha256 or class+message of the raise; a write: sha256 of the file bytes; a repeated call also against the previous '
             'call). distinct = distinct (previous settings, setters since, settings, call) with a cached result present. Every order of '
             'the three setters, enable twice, raise-then-repeat are members of the scope', True, t0))
         t0 = time.time()
-        hs = _sampled_histories(rng, 40000 if thorough else 4000)
+        hs = _sampled_histories(rng, 40000 if thorough else 2500)
         checks.append(_sweep(
             'C09.monitor.history_sampled', hs, paths, d, table,
             f'{len(hs)} seeded random histories of 4..10 calls over {len(HIST_WBS) + 1} paths (incl. malformed formula, unicode, missing, not a '
@@ -791,7 +825,7 @@ def run(tier='quick', seed=0):
             f'every raising setting (unsafe+safety, missing file, not a workbook, malformed formula, unknown sheet, no path; entries none/c1s/'
             f'nosheet/c2/ob1) x 3 earlier states (fresh, cached whole-file text, cached entry text) x 2 setter orders = {len(hs)} histories: '
             'reach it, get, get, write, get, then set path+entry+safety to a good setting, get, write',
-            'as history_exhaustive; a failed write must also leave the file alone', True, t0))
+            'as history_exhaustive', True, t0))
         t0 = time.time()
         hs = _write_histories(table)
         checks.append(_sweep(
@@ -879,7 +913,7 @@ def run(tier='quick', seed=0):
                 jobs.append({'job': 'threads', 'plans': [[_pc(paths, c) for c in pl] for pl in plans], 'rounds': 3 if thorough else 2,
                              'warm': warm, 'switch': [1e-5, 1e-6, 1e-4][rep % 3]})
                 metas.append(plans)
-        res = _spawn_many(jobs, [i % 5 for i in range(len(jobs))])
+        res = _spawn_many(jobs)
         fails, n = {}, 0
         for job, plans, r in zip(jobs, metas, res):
             if isinstance(r, dict):
@@ -896,8 +930,8 @@ def run(tier='quick', seed=0):
                                                         'warm': job['warm'], 'switch': job['switch']}})
         checks.append(_check(
             'C09.monitor.threads',
-            f'{len(jobs)} processes (first translation of the process inside the threads / after a warm-up; switch interval 1e-4..1e-6 s; 5 hash '
-            f'seeds) x {nthreads} threads released by a barrier x {jobs[0]["rounds"]} rounds x 4 settings out of {len(tc)} (two threads share a plan)',
+            f'{len(jobs)} processes (first translation of the process inside the threads / after a warm-up; switch interval 1e-4..1e-6 s; hash '
+            f'seed 0) x {nthreads} threads released by a barrier x {jobs[0]["rounds"]} rounds x 4 settings out of {len(tc)} (two threads share a plan)',
             'one evaluation = outcome inside a thread == outcome of the setting alone in a fresh process. Smoke test only: the interleavings '
             'reached are whatever the scheduler produced', False, n, len(jobs), fails, [{'plans': [[list(c) for c in p] for p in metas[0][:2]]}], t0))
     return {'checks': checks}
